@@ -20,11 +20,13 @@ class Script:
         self.q = []
         self.draws = 0
         self.starved = 0
+        self.log = []       # what was handed out, normalised: index chosen by choice(), offset from the lower bound for randint()
 
     def load(self, ch):
         self.q = list(ch)
         self.draws = 0
         self.starved = 0
+        self.log = []
 
     def _next(self):
         self.draws += 1
@@ -34,10 +36,14 @@ class Script:
         return 0
 
     def choice(self, seq):
-        return seq[self._next() % len(seq)]
+        i = self._next() % len(seq)
+        self.log.append(i)
+        return seq[i]
 
     def randint(self, a, b):
-        return min(b, a + self._next())
+        v = min(b, a + self._next())
+        self.log.append(v - a)
+        return v
 
 
 def mc_module(p):
